@@ -1957,11 +1957,22 @@ fn setup_redirect_output_and_error_to(
     let abs_file_path: PathBuf = shell.absolute_path(Path::new(file_path));
 
     let mut file_options = std::fs::File::options();
-    file_options
-        .create(true)
-        .write(true)
-        .truncate(!append)
-        .append(append);
+    file_options.write(true);
+
+    if !append
+        && shell
+            .options()
+            .disallow_overwriting_regular_files_via_output_redirection
+        && abs_file_path.is_file()
+    {
+        // N.B. `&>file` is subject to noclobber just like `>file`.
+        file_options.create_new(true);
+    } else {
+        file_options
+            .create(true)
+            .truncate(!append)
+            .append(append);
+    }
 
     let stdout_file = shell
         .open_file(&file_options, &abs_file_path, params)
